@@ -36,38 +36,43 @@ Fixpoint first_fail (rs : list sres) : option err :=
 Definition oks (rs : list sres) : list json :=
   flat_map (fun r => match r with SOk j => [j] | SFail _ => [] end) rs.
 
+(** the list branch: every item is completed *)
+Definition sync_items (f : vplan -> rpath -> list err -> sres * list err) (inn : bool) (p : rpath) :=
+  fix sync_items (l : list vplan) (i : nat) (errs : list err) {struct l} : list sres * list err :=
+  match l with
+  | [] => ([], errs)
+  | x :: tl =>
+      let q := PIdx i :: p in
+      let '(r, e1) := f x q errs in
+      let '(r1, e2) := sync_catch inn (sync_nn inn q r) e1 in
+      let '(rs, e3) := sync_items tl (S i) e2 in
+      (r1 :: rs, e3)
+  end.
+
+(** a selection set: stops at the first failure it cannot absorb *)
+Definition sync_sel (f : fplan -> rpath -> list err -> sres * list err) (p : rpath) :=
+  fix sync_sel (l : selset) (acc : list (bytes * json)) (errs : list err) {struct l} : sres * list err :=
+  match l with
+  | [] => (SOk (JObj (rev acc)), errs)
+  | (key, fp) :: tl =>
+      let q := PKey key :: p in
+      let '(r, e1) := f fp q errs in
+      match sync_catch (match fp with FP _ nn _ => nn end) r e1 with
+      | (SFail e, e2) => (SFail e, e2)            (* the rest of the set is not executed *)
+      | (SOk j, e2) => sync_sel tl ((key, j) :: acc) e2
+      end
+  end.
+
 Fixpoint sync_inner (v : vplan) (p : rpath) (errs : list err) {struct v} : sres * list err :=
   match v with
   | VNull => (SOk JNull, errs)
   | VBad => (SFail (err_at p KBad), errs)
   | VLeaf z => (SOk (JInt z), errs)
   | VList inn items =>
-      (* every item is completed; the list fails with the first failing item *)
-      let '(rs, errs1) :=
-        (fix go (l : list vplan) (i : nat) (errs : list err) {struct l} : list sres * list err :=
-           match l with
-           | [] => ([], errs)
-           | x :: tl =>
-               let q := PIdx i :: p in
-               let '(r, e1) := sync_inner x q errs in
-               let '(r1, e2) := sync_catch inn (sync_nn inn q r) e1 in
-               let '(rs, e3) := go tl (S i) e2 in
-               (r1 :: rs, e3)
-           end) items 0 errs in
+      let '(rs, errs1) := sync_items sync_inner inn p items 0 errs in
+      (* the list fails with the first failing item *)
       (match first_fail rs with Some e => SFail e | None => SOk (JList (oks rs)) end, errs1)
-  | VObj fields =>
-      (fix go (l : list (bytes * fplan)) (acc : list (bytes * json)) (errs : list err) {struct l}
-         : sres * list err :=
-         match l with
-         | [] => (SOk (JObj (rev acc)), errs)
-         | (key, fp) :: tl =>
-             let q := PKey key :: p in
-             let '(r, e1) := sync_field fp q errs in
-             match sync_catch (match fp with FP _ nn _ => nn end) r e1 with
-             | (SFail e, e2) => (SFail e, e2)            (* the rest of the set is not executed *)
-             | (SOk j, e2) => go tl ((key, j) :: acc) e2
-             end
-         end) fields [] errs
+  | VObj fields => sync_sel sync_field p fields [] errs
   end
 with sync_field (fp : fplan) (p : rpath) (errs : list err) {struct fp} : sres * list err :=
   match fp with
@@ -96,31 +101,35 @@ Definition cand_nn (nn : bool) (p : rpath) (v : vplan) (c : list err * list site
 Definition cand_catch (nn : bool) (p : rpath) (c : list err * list site) : list err * list site :=
   if nn then c else ([], (slice p, fst c) :: snd c).
 
+Definition cand_items (f : vplan -> rpath -> list err * list site) (inn : bool) (p : rpath) :=
+  fix cand_items (l : list vplan) (i : nat) {struct l} : list err * list site :=
+  match l with
+  | [] => ([], [])
+  | x :: tl =>
+      let q := PIdx i :: p in
+      let c := cand_catch inn q (cand_nn inn q x (f x q)) in
+      let r := cand_items tl (S i) in
+      (fst c ++ fst r, snd c ++ snd r)
+  end.
+
+Definition cand_sel (f : fplan -> rpath -> list err * list site) (p : rpath) :=
+  fix cand_sel (l : selset) {struct l} : list err * list site :=
+  match l with
+  | [] => ([], [])
+  | (key, fp) :: tl =>
+      let q := PKey key :: p in
+      let c := cand_catch (match fp with FP _ nn _ => nn end) q (f fp q) in
+      let r := cand_sel tl in
+      (fst c ++ fst r, snd c ++ snd r)
+  end.
+
 Fixpoint cand_inner (v : vplan) (p : rpath) {struct v} : list err * list site :=
   match v with
   | VNull => ([], [])
   | VBad => ([err_at p KBad], [])
   | VLeaf _ => ([], [])
-  | VList inn items =>
-      (fix go (l : list vplan) (i : nat) {struct l} : list err * list site :=
-         match l with
-         | [] => ([], [])
-         | x :: tl =>
-             let q := PIdx i :: p in
-             let c := cand_catch inn q (cand_nn inn q x (cand_inner x q)) in
-             let r := go tl (S i) in
-             (fst c ++ fst r, snd c ++ snd r)
-         end) items 0
-  | VObj fields =>
-      (fix go (l : list (bytes * fplan)) {struct l} : list err * list site :=
-         match l with
-         | [] => ([], [])
-         | (key, fp) :: tl =>
-             let q := PKey key :: p in
-             let c := cand_catch (match fp with FP _ nn _ => nn end) q (cand_field fp q) in
-             let r := go tl in
-             (fst c ++ fst r, snd c ++ snd r)
-         end) fields
+  | VList inn items => cand_items cand_inner inn p items 0
+  | VObj fields => cand_sel cand_field p fields
   end
 with cand_field (fp : fplan) (p : rpath) {struct fp} : list err * list site :=
   match fp with
